@@ -433,3 +433,34 @@ def gen_cancel_race(rng):
         "directed": "package-cancel-with-a-partial-match-and-stream-messages-between-the-reports",
     }
     return sc
+
+
+def gen_replace_race(rng):
+    """Directed: two or three resting bets replaced in ONE package; the exchange matches the first replacement the instant it is
+    placed, and the pool thread may be suspended between the instruction reports, so the order-stream message showing that
+    replacement complete can be processed before the handler has finished."""
+    knobs = {"n_updates": (8, 10), "p_removal": 0.0, "p_suspend": 0.0, "p_inplay": 0.0, "p_close": 0.0, "n_runners": (2, 3), "spacing": "normal"}
+    m = marketgen.gen_market(rng, 0, knobs)
+    places = []
+    n = rng.choice([2, 2, 3])
+    for k in range(n):
+        side = "BACK" if k % 2 == 0 else "LAY"
+        places.append({"op": "place", "sel": m["runners"][k % len(m["runners"])], "side": side, "type": "LIMIT", "price": 900.0 if side == "BACK" else 1.02, "size": r2(rng.choice([2.0, 3.0, 4.5])), "persistence": "LAPSE"})
+    m["updates"][1]["acts"] = {"L0": [{"op": "txn", "acts": places}]}
+    m["updates"][rng.choice([3, 4])]["acts"] = {"L0": [{"op": "txn", "acts": [{"op": "replace", "order": k, "price": 850.0 if k % 2 == 0 else 1.05} for k in range(n)]}]}
+    return {
+        "world": "B",
+        "cfg": {"async": False, "max_workers": 32},
+        "clients": [{"limit": 5000}],
+        "markets": [m],
+        "strategies": [{"name": "L0", "markets": [0], "client": 0}],
+        "tape": [rng.randrange(1_000_000) for _ in range(90)],
+        "duplicates": rng.random() < 0.2,
+        "idle_ticks": False,
+        "image_with_complete": True,
+        "max_steps": 600,
+        "faults": {"2": {"match_on_place": rng.choice([1.0, 1.0, 0.5]), "match_instructions": [0] if rng.random() < 0.7 else [0, 1]}},
+        "exchange_events": [],
+        "yield_pct": 70,
+        "directed": "package-replace-with-a-replacement-matched-at-once",
+    }
